@@ -56,6 +56,8 @@ import (
 	"github.com/streamingfast/substreams/pipeline/exec"
 	"github.com/streamingfast/substreams/reqctx"
 	"github.com/streamingfast/substreams/service"
+	"github.com/streamingfast/substreams/storage/execout"
+	"github.com/streamingfast/substreams/wasm"
 
 	"verifharness/common"
 )
@@ -601,18 +603,45 @@ func runT1(f feat, variant int) string {
 
 // ---------------------------------------------------------------- E2E: module failure through the three tables
 
-func runE2E(t2ctx byte, nf int) (string, runResult) {
-	// pipeline/exec/baseexec.go wasmCall
-	var modErr error
-	base := errors.New("wasm trap: unreachable")
-	switch t2ctx {
-	case 'C':
-		modErr = fmt.Errorf("block %d: module %q: general wasm execution failed: %w, %w", 7, "m", base, context.Canceled)
-	case 'D':
-		modErr = fmt.Errorf("block %d: module %q: general wasm execution failed: %w, %w", 7, "m", base, context.DeadlineExceeded)
-	default:
-		modErr = fmt.Errorf("block %d: module %q: general wasm execution failed: %w: %s", 7, "m", exec.ErrWasmDeterministicExec, base)
+// e2eModule: a wasm module whose only execution ends the way the scenario says (runtime error or panic)
+type e2eModule struct{ panics bool }
+type e2eInst struct{}
+
+func (e2eInst) Cleanup(context.Context) error { return nil }
+func (e2eInst) Close(context.Context) error   { return nil }
+
+func (m e2eModule) NewInstance(context.Context) (wasm.Instance, error) { return e2eInst{}, nil }
+func (m e2eModule) Close(context.Context) error                        { return nil }
+func (m e2eModule) ExecuteNewCall(ctx context.Context, call *wasm.Call, cached wasm.Instance, args []wasm.Argument, argValues map[string][]byte) (wasm.Instance, error) {
+	if m.panics {
+		call.SetPanicError("explicit panic", "lib.rs", 1, 1)
+		return e2eInst{}, nil
 	}
+	return nil, errors.New("wasm trap: unreachable")
+}
+
+type e2eGetter struct{}
+
+func (e2eGetter) Len() int                         { return 0 }
+func (e2eGetter) Clock() *pbsubstreams.Clock       { return &pbsubstreams.Clock{Number: 7, Id: "7a"} }
+func (e2eGetter) Get(string) ([]byte, bool, error) { return nil, false, execout.ErrNotFound }
+
+func runE2E(t2 string, nf int) (string, runResult) {
+	// the REAL pipeline/exec/baseexec.go wasmCall (hook exec.VerifWasmCallError), with a live, cancelled or expired
+	// executor context
+	panics := strings.HasPrefix(t2, "p")
+	ectx := reqctx.WithReqStats(context.Background(), metrics.NewReqStats(&metrics.Config{}, zap.NewNop()))
+	switch strings.TrimPrefix(t2, "p") {
+	case "C":
+		c, cancel := context.WithCancel(ectx)
+		cancel()
+		ectx = c
+	case "D":
+		c, cancel := context.WithDeadline(ectx, time.Unix(0, 0))
+		defer cancel()
+		ectx = c
+	}
+	modErr := exec.VerifWasmCallError(ectx, e2eModule{panics: panics}, e2eGetter{})
 	// pipeline.executeModules / handleStepNew wrappers
 	modErr = fmt.Errorf("execute modules: %w", fmt.Errorf("running executor %q: %w", "m", modErr))
 	g := service.VerifToGRPCError(context.Background(), modErr)
@@ -1008,8 +1037,8 @@ func jobOf(line string) job {
 		}}
 	case "E2E":
 		return job{line, true, func() string {
-			a, rr := runE2E(w[1][0], common.Atoi(w[2]))
-			if w[1] == "-" {
+			a, rr := runE2E(w[1], common.Atoi(w[2]))
+			if w[1] == "-" || strings.HasPrefix(w[1], "p") {
 				want := fmt.Sprintf("t2=3 status:3 attempts=%d tier1=3/true", common.Atoi(w[2])+1)
 				if a != want {
 					ofail("C16/deterministic-failure-not-invalid-argument-end-to-end", "want "+want+" got "+a, line)
@@ -1255,7 +1284,7 @@ func main() {
 	if o.Thorough() {
 		maxNF = 3
 	}
-	for _, c := range []string{"-", "C", "D"} {
+	for _, c := range []string{"-", "C", "D", "p-", "pC", "pD"} {
 		for nf := 0; nf <= maxNF; nf++ {
 			lines = append(lines, fmt.Sprintf("E2E %s %d", c, nf))
 		}
